@@ -21,6 +21,7 @@ requests:
   {"op":"io","inst":{"name","style","fixup","outs":[out…]},"ents":[{"proxy":b,"name":[cp],"outs":[out…]}…],"outer":[out…]}
         → {"outer":[out…],"ents":[{"name":[cp],"outs":[out…]}…]}
         out = [output, target, input, params, delay rat, times, instOut|null, instIn|null, commaSep]
+  {"op":"autonames","names":[[cp]…]}   (targetnames of the instances in processing order)  → {"names":[[cp]…]}
   {"op":"param","value":[cp],"maxsplit":n}                           → {"name":[cp],"type":[cp]|null,"default":[cp]}
   {"op":"cells","mode":"shared"|"fresh","style":n,"inst":[cp],"vals":[[cp]…],"times":n}
         → {"results":[[[cp]…]…],"template":[[cp]…]}   (template fixups after `times` collapses)
@@ -265,6 +266,9 @@ def handle (j : Json) : Except String Json := do
     let r := collapseIO I ents outer
     pure (Json.mkObj [("outer", ofList ofOut r.outer),
                       ("ents", ofList (fun p => Json.mkObj [("name", Wire.codesOfStr p.1), ("outs", ofList ofOut p.2)]) r.ents)])
+  | "autonames" =>
+    let names ← listOf Wire.strOfCodes (← j.getObjVal? "names")
+    pure (Json.mkObj [("names", ofList Wire.codesOfStr (assignAuto 0 names))])
   | "param" =>
     let v ← Wire.strOfCodes (← j.getObjVal? "value")
     let p := parseParam (← j.getObjValAs? Nat "maxsplit") v
